@@ -75,12 +75,13 @@ func verifRegister(p *Process) {
 }
 
 func verifCommander(p *Process) command.Commander {
-	if VerifCommanderFn == nil {
+	fn := VerifCommanderFn
+	if fn == nil {
 		return nil
 	}
 	cnt, _ := verifAttempts.LoadOrStore(p, &atomic.Int64{})
 	attempt := int(cnt.(*atomic.Int64).Add(1))
-	return VerifCommanderFn(VerifLaunchInfo{
+	return fn(VerifLaunchInfo{
 		Proc:       p.getName(),
 		Inst:       verifInst(p),
 		Attempt:    attempt,
@@ -93,14 +94,16 @@ func verifCommander(p *Process) command.Commander {
 }
 
 func verifTrace(p *Process, ev string, kv ...any) {
-	if VerifTraceFn == nil {
+	fn := VerifTraceFn
+	if fn == nil {
 		return
 	}
-	VerifTraceFn(ev, p.getName(), verifInst(p), kv)
+	fn(ev, p.getName(), verifInst(p), kv)
 }
 
 func verifTraceDep(conf *types.ProcessConfig, dep string, ev string, depProc *Process) {
-	if VerifTraceFn == nil {
+	fn := VerifTraceFn
+	if fn == nil {
 		return
 	}
 	var inst int64
@@ -111,35 +114,39 @@ func verifTraceDep(conf *types.ProcessConfig, dep string, ev string, depProc *Pr
 	if d, ok := conf.DependsOn[dep]; ok {
 		cond = d.Condition
 	}
-	VerifTraceFn(ev, conf.ReplicaName, inst, []any{"k", dep, "ki", verifInst(depProc), "cond", cond})
+	fn(ev, conf.ReplicaName, inst, []any{"k", dep, "ki", verifInst(depProc), "cond", cond})
 }
 
 func verifTraceRunner(_ *ProjectRunner, ev string, kv ...any) {
-	if VerifTraceFn == nil {
+	fn := VerifTraceFn
+	if fn == nil {
 		return
 	}
-	VerifTraceFn(ev, "", 0, kv)
+	fn(ev, "", 0, kv)
 }
 
 func verifGate(p *Process, point string) {
-	if VerifGateFn == nil {
+	fn := VerifGateFn
+	if fn == nil {
 		return
 	}
-	VerifGateFn(p.getName(), verifInst(p), point)
+	fn(p.getName(), verifInst(p), point)
 }
 
 func verifGateName(name string, point string) {
-	if VerifGateFn == nil {
+	fn := VerifGateFn
+	if fn == nil {
 		return
 	}
-	VerifGateFn(name, 0, point)
+	fn(name, 0, point)
 }
 
 func verifBackoff(p *Process, d time.Duration) (time.Duration, bool) {
-	if VerifBackoffFn == nil {
+	fn := VerifBackoffFn
+	if fn == nil {
 		return 0, false
 	}
-	return VerifBackoffFn(p.getName(), verifInst(p), d)
+	return fn(p.getName(), verifInst(p), d)
 }
 
 // VerifInjectProbe delivers one probe completion for the running instance of
